@@ -1,5 +1,5 @@
 (* Extraction of the executable models. ExtrOcamlBasic only: Z/positive/nat stay inductive. *)
-From MV Require Import Base.MvBytes Num.NumModel Json.JsonModel Json.JsonSpec Dispatch.DispatchModel DataUri.DataUriModel Stream.StreamModel Buf.BufModel Cli.CliModel Cli.ConcatModel Stream.StreamHttp Xml.XmlModel.
+From MV Require Import Base.MvBytes Num.NumModel Json.JsonModel Json.JsonSpec Dispatch.DispatchModel DataUri.DataUriModel Stream.StreamModel Buf.BufModel Cli.CliModel Cli.ConcatModel Stream.StreamHttp Xml.XmlModel Base.Ws.
 Require Extraction.
 Require Import ExtrOcamlBasic.
 Extraction Language OCaml.
@@ -11,4 +11,4 @@ Separate Extraction number0 decimal0 valid_number valid_decimal
   tb_init peek shift
   ops_of cr_init cread read_fuel
   serve close_err
-  xml_minify escape_attr_val escape_cdata_val.
+  xml_minify escape_attr_val escape_cdata_val collapse.
